@@ -29,6 +29,7 @@ var (
 	NewTicker = vsched.NewTicker
 	NewTimer  = vsched.NewTimer
 	After     = vsched.After
+	AfterFunc = vsched.AfterFunc
 )
 
 func Since(t Time) Duration { return vsched.Now().Sub(t) }
